@@ -1183,6 +1183,70 @@ def history_case(ck, batch, d, nops):
     batch.add(lines, cb)
 
 
+# ---------------------------------------------------------------- part F2: every save writes the CURRENT cache
+def resave_case(ck, batch, d, doc, how, second):
+    """save -> (something empties / changes the cache or the file without a look-up in between) -> save -> restart.
+    The second save must write what the cache holds at that moment (no 'nothing changed' short cut may skip it)."""
+    cfile = os.path.join(d, CACHE)
+    case = {"op": "resave", "doc": doc, "how": how, "second": second}
+    put_file(cfile, None)
+    put_file(cfile + ".backup", None)
+    start_loaded = how.startswith("loaded-")
+    if start_loaded:
+        put_file(cfile, doc_text(doc).encode())
+        fs, w, exc = new_fileset(d, cfile)                 # the cache comes from its own file
+    else:
+        fs, w, exc = new_fileset(d, None)
+        fill(fs, doc)
+        fs.save_cache(cfile)
+    lines = ["new", "cacheset " + model_doc_json(doc), f"save {CACHE} -1 " + hexs(doc_text(doc))]
+    kind = how.replace("loaded-", "")
+    if kind == "reset":
+        fs.reset_cache()
+        lines.append("reset")
+    elif kind == "coverage":
+        fs.time_coverage = "1 hour"                        # the setter empties the cache
+        lines.append("reset")
+    elif kind == "file-deleted":
+        put_file(cfile, None)
+        lines.append(f"file {CACHE} absent")
+    elif kind == "file-corrupted":
+        put_file(cfile, doc_text(doc).encode()[:-3])
+        lines.append(f"file {CACHE} {hexs(doc_text(doc).encode()[:-3])}")
+    current = [] if kind in ("reset", "coverage") else list(doc)
+    if second:
+        from typhon.files.handlers.common import FileInfo
+        for p, a, b, at in second:
+            fs.info_cache[p] = FileInfo(p, [from7(a), from7(b)], json.loads(json.dumps(at)))
+        current = dict_update(current, second)
+    lines.append("cacheset " + model_doc_json(current))
+    ctl = Ctl()
+    try:
+        with patched(ctl):
+            fs.save_cache(cfile)
+    except Exception as e:      # noqa
+        ck.violation("save-exception", f"second save raised {type(e).__name__}: {e}", case)
+        return
+    got_c = read_bytes(cfile)
+    want_b = doc_text(current).encode()
+    if got_c != want_b:
+        ck.violation("save-skipped", f"save after '{how}': the cache file holds {show_state(got_c)[:60]}, the cache at the time of the save was "
+                                     f"{len(current)} entries ({show_state(want_b)[:60]})", case)
+    fs2, w2, exc2 = new_fileset(d, cfile)
+    if exc2 is not None or not same_cache(canon_cache(fs2.info_cache), dict_update([], current)) or w2:
+        ck.violation("restart-cache", f"restart after save / {how} / save: cache has {len(fs2.info_cache) if fs2 is not None else '?'} entries, expected {len(current)}"
+                                      f"{' (warning: ' + w2[0][:60] + ')' if w2 else ''}", case)
+    ck.case(key=("resave", json.dumps(doc), how, json.dumps(second)), kind="resave/" + how, sample={"entries": len(doc), "how": how, "then_added": len(second)})
+    lines.append(f"save {CACHE} -1 " + " ".join(hexs(c) for c in ctl.chunks))
+    state = show_state(got_c)
+
+    def cb(out):
+        m = re.match(r"doc=(.*) cache=(\S+) backup=(\S+)$", out[-1])
+        if not m or m.group(2) != state:
+            ck.disagree(f"resave {how}: model '{out[-1][-90:]}' vs disk cache={state[:60]}", case)
+    batch.add(lines, cb)
+
+
 # ---------------------------------------------------------------- part G: the atexit hook (real interpreter exit)
 ATEXIT_CHILD = r"""
 import datetime as dt, json, os, sys, warnings
@@ -1280,6 +1344,8 @@ def run_case(ck, batch, d, c):
         corrupt_case(ck, batch, d, content, c.get("label", "corpus"), c.get("preload", []), c.get("init", True))
     elif op == "hardcrash":
         hard_crash_case(ck, d, c.get("old"), c["new"], c["k"])
+    elif op == "resave":
+        resave_case(ck, batch, d, c["doc"], c["how"], c.get("second", []))
 
 
 def explore(ck, batch, d, n_docs, n_time, n_find, n_hist, n_hard, thorough, n_atexit=0):
@@ -1298,6 +1364,9 @@ def explore(ck, batch, d, n_docs, n_time, n_find, n_hist, n_hard, thorough, n_at
         crash_document(ck, batch, d, old, new, exhaustive=(i < 3 or len(new) <= 3 or thorough), stale=stale)
     for i, doc in enumerate(docs[1:1 + max(3, n_docs // 4)]):
         corruption_stream(ck, batch, d, doc[:3], thorough)
+    for i, doc in enumerate(docs[1:1 + max(4, n_docs // 3)]):
+        for how in ("reset", "coverage", "file-deleted", "file-corrupted", "loaded-reset", "loaded-coverage", "loaded-file-deleted"):
+            resave_case(ck, batch, d, doc[:4], how, gen_doc(rng, rng.choice([0, 0, 1, 2]), base="/second"))
     for _ in range(n_find):
         find_case(ck, batch, d)
     for _ in range(n_hist):
